@@ -285,15 +285,6 @@ func c09LoopsEnd(r *Run, c *c09fn, agg *c09Agg) int {
 	return elem
 }
 
-func sortedKeys(m map[string]bool) []string {
-	var out []string
-	for k := range m {
-		out = append(out, k)
-	}
-	sort.Strings(out)
-	return out
-}
-
 // c09RangeLoop: the head draws the next entry of a map / string iterator and leaves the loop
 // when there is none.
 func c09RangeLoop(B *ssa.BasicBlock, blocks map[*ssa.BasicBlock]bool) bool {
